@@ -145,6 +145,45 @@ class EqRel(sym.Rel):
         return super().size()
 
 
+class AuxRel(sym.Rel):
+    """relation with auxiliary columns: the key is the non-auxiliary part; an insert with an existing key updates the
+    auxiliary columns (mode 'overwrite': interpreter Updater, lattices) or keeps the smaller (level, rule) annotation
+    (mode 'prov': ProvenanceUpdater)"""
+
+    def __init__(self, name, arity, types, uni, aux, mode):
+        super().__init__(name, arity, types, uni)
+        self.aux = aux
+        self.mode = mode
+
+    def copy(self, name=None):
+        r = AuxRel(name or self.name, self.arity, self.types, self.uni, self.aux, self.mode)
+        r.entries = {k: [e[0], e[1]] for k, e in self.entries.items()}
+        return r
+
+    def insert(self, t, g):
+        if g is False:
+            return
+        n = self.arity - self.aux
+        block = []
+        for k, e in list(self.entries.items()):
+            if e[1] is False:
+                continue
+            q = self.tuple_eq(e[0][:n], t[:n])
+            if q is False:
+                continue
+            same = self.tuple_eq(e[0], t)
+            if self.mode == "prov":
+                lvl_new, lvl_old = t[self.arity - 1], e[0][self.arity - 1]
+                rul_new, rul_old = t[self.arity - 2], e[0][self.arity - 2]
+                smaller = g_or(sym.cmp_lt(lvl_new, lvl_old, "i"),
+                               g_and(self.uni.eq(lvl_new, lvl_old), sym.cmp_lt(rul_new, rul_old, "i")))
+                block.append(g_and(e[1], q, g_not(smaller)))
+                e[1] = g_and(e[1], g_not(g_and(g, q, smaller)))
+            else:
+                e[1] = g_and(e[1], g_not(g_and(g, q, g_not(same))))
+        super().insert(t, g_and(g, g_not(g_or(*block))))
+
+
 class Exec:
     def __init__(self, prog, ctx, inputs, max_loop=40, loop_check=True, order=None, sub_args=None, no_expire=False):
         self.prog = prog
@@ -155,15 +194,21 @@ class Exec:
         self.loop_check = loop_check
         self.order = order            # optional function(list of (terms, guard)) -> reordered list
         self.rels = {}
+        self.provenance = any("@level_number" in d.attrs for d in prog.rels.values())
         for name, d in prog.rels.items():
-            cls = EqRel if d.rep == "eqrel" else sym.Rel
-            self.rels[name] = cls(name, d.arity, d.types, self.uni)
+            if d.rep == "eqrel":
+                self.rels[name] = EqRel(name, d.arity, d.types, self.uni)
+            elif d.aux:
+                self.rels[name] = AuxRel(name, d.arity, d.types, self.uni, d.aux, "prov" if self.provenance else "overwrite")
+            else:
+                self.rels[name] = sym.Rel(name, d.arity, d.types, self.uni)
         self.outputs = {}
         self.printsizes = {}
         self.pc = True
         self.vars = {}
         self.logsizes = []
         self.loop_iters = []
+        self.cur_iter = None
         self.returns = []
         self.args = sub_args or []
         self.autoinc = 0
@@ -211,7 +256,7 @@ class Exec:
         elif k in ("debug", "timer", "parallel"):
             self.stmts(s.body)
             if k == "timer" and s.rel is not None:
-                self.logsizes.append({"rel": s.rel, "msg": s.msg, "size": self.rel(s.rel).size(), "pc": self.pc, "kind": "timer"})
+                self.logsizes.append({"rel": s.rel, "msg": s.msg, "size": self.rel(s.rel).size(), "pc": self.pc, "kind": "timer", "iter": self.cur_iter})
         elif k == "loop":
             self.loop(s)
         elif k == "exit":
@@ -240,6 +285,10 @@ class Exec:
                 else:
                     na = sym.rel_mix(self.pc, b, a, s.a)
                     nb = sym.rel_mix(self.pc, a, b, s.b)
+                    for new, old in ((na, a), (nb, b)):
+                        if isinstance(old, AuxRel):
+                            new.__class__ = AuxRel
+                            new.aux, new.mode = old.aux, old.mode
                 self.rels[s.a], self.rels[s.b] = na, nb
         elif k == "mergeextend":
             # interpreter: src.extendAndInsert(trg) -- src (new knowledge) is extended by the classes of trg (old
@@ -264,7 +313,7 @@ class Exec:
             old = self.vars.get(s.var)
             self.vars[s.var] = v if (old is None or self.pc is True) else v_ite(self.pc, v, old)
         elif k == "logsize":
-            self.logsizes.append({"rel": s.rel, "msg": s.msg, "size": self.rel(s.rel).size(), "pc": self.pc, "kind": "logsize"})
+            self.logsizes.append({"rel": s.rel, "msg": s.msg, "size": self.rel(s.rel).size(), "pc": self.pc, "kind": "logsize", "iter": self.cur_iter})
         elif k == "nop":
             pass
         else:
@@ -277,8 +326,9 @@ class Exec:
             if src is None:
                 return   # no facts for this relation
             r = self.rel(s.rel)
+            pad = (0,) * self.prog.rels[s.rel].aux
             for t, g in src.items():
-                r.insert(t, g_and(self.pc, g))
+                r.insert(tuple(t) + pad, g_and(self.pc, g))
         elif opn == "output":
             d = self.prog.rels[s.rel]
             r = self.rel(s.rel)
@@ -310,10 +360,12 @@ class Exec:
             if it >= self.max_loop:
                 raise LoopBound("loop not exhausted after %d unrollings (unwinding obligation not discharged)" % it)
             self.in_loop += 1
+            self.cur_iter = it
             try:
                 self.stmts(s.body)
             finally:
                 self.in_loop -= 1
+                self.cur_iter = None
             it += 1
         self.loop_iters.append(it)
         self.pc = saved
@@ -424,7 +476,7 @@ class Exec:
             self.rel(o.rel).erase(t, g)
             return False
         if k == "return":
-            self.returns.append(([self.expr(a, env) for a in o.args], g))
+            self.returns.append(([self.expr(a, env) for a in o.args], g, env))
             return False
         raise Unsupported("RAM operation " + k)
 
